@@ -654,8 +654,51 @@ def _receiver_attr(f, call_recv, attrs):
     return None
 
 
-def _resolve_receiver(ix, spec, f, recv, attrs):
+def _reaching_binding(fnode, node, name):
+    """the assignment `name = ...` that reaches `node`: the nearest one before it in its own block or in an enclosing block (straight-line reading; a name bound
+    in both arms of an enclosing `if` does not occur in the forms this is used for)"""
+    where = {}
+
+    def index(stmts, parent):
+        for i, st in enumerate(stmts):
+            where[id(st)] = (stmts, i, parent)
+            for fld in ('body', 'orelse', 'finalbody'):
+                b = getattr(st, fld, None)
+                if isinstance(b, list) and b and isinstance(b[0], ast.stmt):
+                    index(b, st)
+    index(fnode.body, None)
+    cur = None
+    for st_id, (stmts, i, parent) in list(where.items()):
+        st = stmts[i]
+        if any(x is node for x in ast.walk(st)) and not any(any(x is node for x in ast.walk(c)) for fld in ('body', 'orelse', 'finalbody') for c in (getattr(st, fld, None) or [])
+                                                              if isinstance(c, ast.stmt)):
+            cur = st
+    while cur is not None:
+        stmts, i, parent = where[id(cur)]
+        for k in range(i - 1, -1, -1):
+            q = stmts[k]
+            if isinstance(q, ast.Assign) and any(isinstance(t, ast.Name) and t.id == name for t in q.targets):
+                return q
+        cur = parent
+    return None
+
+
+def _resolve_receiver(ix, spec, f, recv, attrs, depth=0):
     kind = _receiver_attr(f, recv, attrs)
+    if kind is None and isinstance(recv, ast.Name) and depth < 4:
+        # a local bound more than once (one binding per interpreter, in consecutive blocks): the binding that reaches this use
+        allb = [a for a in ast.walk(f.node) if isinstance(a, ast.Assign) and any(isinstance(t, ast.Name) and t.id == recv.id for t in a.targets)]
+        if len(allb) > 1:
+            b_ = _reaching_binding(f.node, recv, recv.id)
+            if b_ is not None:
+                v = b_.value
+                kind = _receiver_attr(f, v, attrs)
+                if kind is None and isinstance(v, ast.Name):
+                    kind = _resolve_receiver(ix, spec, f, v, attrs, depth + 1)
+                if kind is None and isinstance(v, ast.Call) and isinstance(v.func, ast.Name) and v.func.id == 'getattr' and len(v.args) >= 2 and isinstance(v.args[1], ast.Constant) \
+                        and v.args[1].value in attrs and isinstance(v.args[0], ast.Name) and v.args[0].id == 'self':
+                    kind = ('one', v.args[1].value)
+                return kind
     if kind is None and isinstance(recv, ast.Name):
         # a local: follow its single binding
         binds = [a for a in ast.walk(f.node) if isinstance(a, ast.Assign) and any(isinstance(t, ast.Name) and t.id == recv.id for t in a.targets)]
